@@ -166,7 +166,12 @@ type nmEnv struct {
 	probes     []util.Uint160
 	caller     util.Uint160 // deployed contract without newEpoch/1
 	nodes      []nmNode
-	committee  neotest.Signer
+	committee  neotest.Signer // the Alphabet account: 2n/3+1 of the committee keys (signer index -1)
+	nc         int            // committee size of this chain (1, 3 or 4)
+	majority   neotest.Signer // n/2+1 multisig, common.CommitteeAddress (signer index -2)
+	member     neotest.Signer // single committee member (index -3)
+	below      neotest.Signer // multisig below both thresholds (index -4)
+	gateRng    *rand.Rand
 	rej        map[int]int64 // probe index -> epoch it rejects
 	cfg        [][2][]byte
 }
@@ -185,10 +190,46 @@ func nmCloneContract(c *neotest.Contract, sender util.Uint160, name string) *neo
 // deployment), nProbes probe subscribers (not subscribed yet) and nNodes
 // deterministic node accounts.
 func newNmEnv(t testing.TB, r *rand.Rand, withBalance bool, nProbes, nNodes int) *nmEnv {
-	v := NewEnv(t)
-	n := &nmEnv{Env: v, rej: map[int]int64{}}
+	return newNmEnvN(t, r, withBalance, nProbes, nNodes, 1)
+}
+
+// newNmEnvN: nc = committee size. On chains with 3 and 4 keys the Alphabet
+// account (2n/3+1), the committee-majority account (n/2+1; the same account for
+// n = 4), a single member and a multisig below both thresholds are different
+// principals; only the first one is the Alphabet.
+func newNmEnvN(t testing.TB, r *rand.Rand, withBalance bool, nProbes, nNodes, nc int) *nmEnv {
+	var v *Env
+	n := &nmEnv{rej: map[int]int64{}, nc: nc, gateRng: rand.New(rand.NewSource(r.Int63()))}
+	if nc <= 1 {
+		v = NewEnv(t)
+		n.committee = v.E.Committee
+		n.majority = v.E.Committee
+		n.member = neotest.NewSingleSigner(wallet.NewAccountFromPrivateKey(HarnessKey(900)))
+		n.below = n.member
+	} else {
+		vn := NewEnvN(t, nc)
+		v = vn.Env
+		n.committee = vn.Alphabet
+		n.majority = vn.Majority
+		n.member = neotest.NewSingleSigner(wallet.NewAccountFromPrivateKey(vn.Keys[0]))
+		n.below = MultiSignerOf(nc/2, vn.Keys)
+	}
+	n.Env = v
 	e := v.E
-	n.committee = e.Committee
+	{
+		var txs []*transaction.Transaction
+		seen := map[util.Uint160]bool{e.Validator.ScriptHash(): true}
+		for _, sg := range []neotest.Signer{n.committee, n.majority, n.member, n.below} {
+			if !seen[sg.ScriptHash()] {
+				seen[sg.ScriptHash()] = true
+				txs = append(txs, e.NewTx(t, []neotest.Signer{e.Validator}, e.NativeHash(t, nativenames.Gas), "transfer",
+					e.Validator.ScriptHash(), sg.ScriptHash(), int64(100000_0000_0000), nil))
+			}
+		}
+		if len(txs) > 0 {
+			e.AddNewBlock(t, txs...)
+		}
+	}
 	n.cfg = [][2][]byte{{[]byte("MaxObjectSize"), {0, 0, 16}}, {[]byte("k2"), {}}}
 	var cfgArg []any
 	for _, kv := range n.cfg {
@@ -215,7 +256,7 @@ func newNmEnv(t testing.TB, r *rand.Rand, withBalance bool, nProbes, nNodes int)
 	n.netmap = nm.Hash
 	pr := v.CompileHelper("nmprobe")
 	for i := 0; i < nProbes; i++ {
-		p := nmCloneContract(pr, e.CommitteeHash, fmt.Sprintf("verif netmap probe %d", i))
+		p := nmCloneContract(pr, e.Validator.ScriptHash(), fmt.Sprintf("verif netmap probe %d", i))
 		e.DeployContract(t, p, nil)
 		n.probes = append(n.probes, p.Hash)
 	}
@@ -286,16 +327,60 @@ func (o nmOp) String() string {
 	return o.Kind
 }
 
+func (n *nmEnv) signerOf(i int) neotest.Signer {
+	switch i {
+	case -1:
+		return n.committee
+	case -2:
+		return n.majority
+	case -3:
+		return n.member
+	case -4:
+		return n.below
+	}
+	return n.nodes[i].signer
+}
+
 func (n *nmEnv) signerList(idx []int) []neotest.Signer {
 	var out []neotest.Signer
+	seen := map[util.Uint160]bool{}
 	for _, i := range idx {
-		if i < 0 {
-			out = append(out, n.committee)
-		} else {
-			out = append(out, n.nodes[i].signer)
+		sg := n.signerOf(i)
+		if seen[sg.ScriptHash()] {
+			continue // equal script hashes are one principal (n = 4: majority = Alphabet)
 		}
+		seen[sg.ScriptHash()] = true
+		out = append(out, sg)
 	}
 	return out
+}
+
+// alphaOf: is the Alphabet account (exactly the 2n/3+1 multisig) among the
+// signers of the operation?
+func (n *nmEnv) alphaOf(op nmOp) bool {
+	for _, i := range op.Signers {
+		if i < 0 && n.signerOf(i).ScriptHash() == n.committee.ScriptHash() {
+			return true
+		}
+	}
+	return false
+}
+
+// gateVariant replaces the Alphabet account among the signers by another
+// principal: the committee-majority account, a single member, a multisig
+// below both thresholds.
+func (n *nmEnv) gateVariant(op nmOp) nmOp {
+	alt := []int{-2, -3, -4}[n.gateRng.Intn(3)]
+	m := op
+	m.Signers = nil
+	for _, i := range op.Signers {
+		if i == -1 {
+			i = alt
+		}
+		m.Signers = append(m.Signers, i)
+	}
+	m.Join = n.gateRng.Intn(2) == 0
+	return m
 }
 
 func (n *nmEnv) prepare(op nmOp) *transaction.Transaction {
@@ -471,11 +556,9 @@ func (n *nmEnv) answer(q nmQuery) gv {
 
 func (n *nmEnv) coqCtx(f *nmFile, op nmOp, height uint32) string {
 	var ws []string
-	alpha := false
+	alpha := n.alphaOf(op)
 	for _, i := range op.Signers {
-		if i < 0 {
-			alpha = true
-		} else {
+		if i >= 0 {
 			ws = append(ws, f.pool.Ref(n.nodes[i].pub))
 		}
 	}
@@ -651,13 +734,29 @@ func nmRunHistory(t *testing.T, n *nmEnv, f *nmFile, proj nmProjection, mon nmMo
 		}
 		pending = pending[:0]
 	}
-	for i := 0; ; i++ {
-		op, ok := next(i, tr)
-		if !ok {
-			break
+	var held *nmOp
+	gi := 0
+	for {
+		var op nmOp
+		if held != nil {
+			op, held = *held, nil
+		} else {
+			var ok bool
+			op, ok = next(gi, tr)
+			gi++
+			if !ok {
+				break
+			}
+			if n.nc > 1 && hasSigner(op, -1) && n.gateRng.Intn(5) == 0 {
+				// the same request first from a principal that is not the Alphabet (committee
+				// majority, single member, below-threshold multisig), then as generated
+				orig := op
+				held = &orig
+				op = n.gateVariant(orig)
+			}
 		}
 		h.all = append(h.all, op)
-		if op.Join && op.Kind == "newEpoch" && hasSigner(op, -1) && op.Epoch > tr.epoch {
+		if op.Join && op.Kind == "newEpoch" && n.alphaOf(op) && op.Epoch > tr.epoch {
 			// the generator's belief while the block is being assembled (the next
 			// operation of the same block sees the new epoch); corrected by the
 			// read after the block
@@ -852,7 +951,7 @@ func (n *nmEnv) nodeIndex(key []byte) int {
 // expectCand says whether the property expects the candidate operation to
 // succeed and applies its effect to the reference set.
 func (n *nmEnv) expectCand(rc refCands, op nmOp) (ok bool, events []gv) {
-	alpha := hasSigner(op, -1)
+	alpha := n.alphaOf(op)
 	switch op.Kind {
 	case "addPeer", "addPeerIR":
 		if len(op.Info) < 35 {
@@ -978,7 +1077,7 @@ func (m *nmMon) step(h *nmHistory, from, to int) {
 	for i := from; i < to; i++ {
 		s := h.steps[i]
 		op, res := s.op, s.res
-		alpha := hasSigner(op, -1)
+		alpha := n.alphaOf(op)
 		oc := "H"
 		if !res.halt {
 			oc = "F"
@@ -1680,6 +1779,11 @@ func nmCorpus(prop string, n *nmEnv) [][]nmOp {
 			addN(2, "y"), peerIR(2, 2), tick(2))
 		return out
 	}
+	// committee of 3 keys (run on such a chain): every Alphabet-gated request from the
+	// committee-majority account (-2), a single member (-3), a multisig below both
+	// thresholds (-4) is refused; only the 2n/3+1 account (-1) is the Alphabet
+	by := func(op nmOp, sg ...int) nmOp { op.Signers = sg; return op }
+	gates := func(op nmOp) []nmOp { return []nmOp{by(op, -2), by(op, -3), by(op, -4), by(op, -2, -3)} }
 	switch prop {
 	case "C06":
 		return [][]nmOp{
@@ -1740,6 +1844,12 @@ func nmCorpus(prop string, n *nmEnv) [][]nmOp {
 				tick(11),
 				tick(12),
 			},
+			// LAST: run on a 3-key committee, probes only (no subscriber checks the Alphabet itself)
+			cat(gates(nmOp{Kind: "subscribe", Hash: p0}), []nmOp{{Kind: "subscribe", Hash: p0, Signers: al}},
+				gates(nmOp{Kind: "addPeerIR", Info: n.info(0, 1, 2)}), []nmOp{{Kind: "addPeerIR", Info: n.info(0, 1, 2), Signers: al}},
+				gates(tick(1)), []nmOp{tick(1)},
+				gates(nmOp{Kind: "setConfig", CfgKey: []byte("k"), CfgVal: []byte("v")}), []nmOp{{Kind: "setConfig", CfgKey: []byte("k"), CfgVal: []byte("v"), Signers: al}},
+				[]nmOp{by(tick(2), -2, 0), by(tick(2), -2), tick(2), by(tick(3), -2), by(tick(3), -1, -2)}),
 		}
 	case "C07":
 		return [][]nmOp{
@@ -1783,6 +1893,14 @@ func nmCorpus(prop string, n *nmEnv) [][]nmOp {
 				tick(4),
 			},
 			reannounce(),
+			// LAST: run on a 3-key committee
+			cat([]nmOp{by(nmOp{Kind: "addPeer", Info: n.info(0, 1, 4)}, -2, 0), by(nmOp{Kind: "addPeer", Info: n.info(0, 1, 4)}, -3, 0),
+				by(nmOp{Kind: "addPeer", Info: n.info(0, 1, 4)}, -1, 0), by(addN(1, "b"), -2, 1), by(addN(1, "b"), -4, 1), addN(1, "b")},
+				gates(nmOp{Kind: "addPeerIR", Info: n.info(2, 2, 2)}), []nmOp{{Kind: "addPeerIR", Info: n.info(2, 2, 2), Signers: al}},
+				[]nmOp{by(nmOp{Kind: "updateState", State: 3, Key: k0}, -2, 0), by(nmOp{Kind: "updateState", State: 3, Key: k0}, -1, 0)},
+				gates(nmOp{Kind: "updateStateIR", State: 3, Key: k1}), []nmOp{{Kind: "updateStateIR", State: 3, Key: k1, Signers: al}},
+				gates(nmOp{Kind: "deleteNode", Key: k0}), []nmOp{{Kind: "deleteNode", Key: k0, Signers: al}},
+				gates(tick(1)), []nmOp{tick(1)}),
 		}
 	case "C08":
 		return [][]nmOp{
@@ -1805,6 +1923,8 @@ func nmCorpus(prop string, n *nmEnv) [][]nmOp {
 			cat(ticks(1, 1), []nmOp{{Kind: "newEpoch", Epoch: 2, Signers: al, Join: true},
 				{Kind: "addPeerIR", Info: n.info(3, 3, 2), Signers: al, Join: true}, func() nmOp { o := addN(3, "3"); o.Join = true; return o }(), tick(3),
 				{Kind: "newEpoch", Epoch: 4, Signers: al, Join: true}, tick(5), resize(3)}, ticks(6, 8)),
+			// LAST: run on a 3-key committee
+			cat(gates(resize(5)), ticks(1, 3), gates(resize(5)), []nmOp{resize(5)}, gates(tick(4)), ticks(4, 9), gates(resize(7)), []nmOp{resize(7)}, ticks(10, 11)),
 		}
 	}
 	return nil
@@ -1886,7 +2006,11 @@ func runNetmapFamily(t *testing.T, prop string) {
 		n0 := newNmEnv(t, Rng(-1), false, nProbes, nNodes)
 		nc := len(nmCorpus(prop, n0))
 		for ci := 0; ci < nc; ci++ {
-			n := newNmEnv(t, Rng(-1), false, nProbes, nNodes)
+			csize := 1
+			if ci == nc-1 {
+				csize = 3 // the last corpus history of every property runs on a 3-key committee
+			}
+			n := newNmEnvN(t, Rng(-1), false, nProbes, nNodes, csize)
 			ops := nmCorpus(prop, n)[ci]
 			m := newNmMon(prop, st, n)
 			h := nmRunHistory(t, n, fs.file(), proj, m, func(step int, tr *nmTrack) (nmOp, bool) {
@@ -1908,7 +2032,8 @@ func runNetmapFamily(t *testing.T, prop string) {
 		for hi := 0; hi < nh; hi++ {
 			r := Rng(int64(hi) + 1000)
 			withBal := prop == "C06" && hi%3 == 0
-			n := newNmEnv(t, r, withBal, r.Intn(4), nNodes)
+			// a share of the histories on committees of 3 and 4 keys (2n/3+1 = n/2+1 only for n = 1, 4)
+			n := newNmEnvN(t, r, withBal, r.Intn(4), nNodes, []int{1, 3, 1, 4}[hi%4])
 			g := &nmGen{r: r, n: n, prop: prop}
 			m := newNmMon(prop, st, n)
 			nops := 8 + r.Intn(maxOps-7)
@@ -1994,7 +2119,7 @@ func runNetmapFamily(t *testing.T, prop string) {
 		}
 		for hi, p := range pts {
 			r := Rng(int64(hi) + 5000)
-			n := newNmEnv(t, Rng(-1), false, 0, nNodes) // same node keys in every history: maps are shared in the case file
+			n := newNmEnvN(t, Rng(-1), false, 0, nNodes, []int{1, 1, 3, 4}[hi%4]) // same node keys in every history: maps are shared in the case file
 			g := &nmGen{r: r, n: n, prop: prop}
 			g.planC08(p.counts, p.ticks, p.light)
 			m := newNmMon(prop, st, n)
